@@ -189,6 +189,17 @@ fn expected_format(text: &str) -> Option<String> {
     .ok()
 }
 
+pub fn formatter_panics(text: &str) -> bool {
+    static MEMO: Mutex<Option<HashMap<u64, bool>>> = Mutex::new(None);
+    let k = vcore::hash_str(text);
+    if let Some(b) = MEMO.lock().unwrap().get_or_insert_with(HashMap::new).get(&k) {
+        return *b;
+    }
+    let b = expected_format(text).is_none();
+    MEMO.lock().unwrap().get_or_insert_with(HashMap::new).insert(k, b);
+    b
+}
+
 fn apply_edit(text: &str, edit: &Value) -> Option<String> {
     let r = &edit["range"];
     let s = pos_to_offset(text, r["start"]["line"].as_u64()? as u32, r["start"]["character"].as_u64()? as u32)?;
@@ -308,6 +319,24 @@ fn analyzer_site(out: &Outcome) -> String {
 }
 
 pub fn judge(h: &History, out: &Outcome, stats: &mut JudgeStats) -> Vec<Violation> {
+    let mut v = judge_inner(h, out, stats);
+    // whatever is observed after an analysis thread has panicked is a consequence of that panic: one signature per
+    // panic site (which downstream symptom shows up first depends on the history and on the interleaving)
+    if out.thread_panics > 0 && !v.is_empty() {
+        let site = analyzer_site(out);
+        let symptoms: Vec<String> = v.iter().map(|x| x.class.clone()).collect::<std::collections::BTreeSet<_>>().into_iter().collect();
+        let first = v.remove(0);
+        v = vec![Violation {
+            class: "analysis_thread_panic".into(),
+            site,
+            detail: format!("an analysis thread panicked; symptoms in this execution: {symptoms:?}; first: {}; panics in order: {:?}", first.detail, out.panics),
+            step: first.step,
+        }];
+    }
+    v
+}
+
+fn judge_inner(h: &History, out: &Outcome, stats: &mut JudgeStats) -> Vec<Violation> {
     let mut v = vec![];
     let steps = h.full_steps();
     let mut responses: BTreeMap<i32, lsp_server::Response> = BTreeMap::new();
